@@ -157,7 +157,7 @@ static PCase decode(Src &s) {
         g.ownCode = s.coin() ? -221 : -240;
         c.sigs.push_back(g);
     }
-    bool longList = !s.prob(39, 40);
+    bool longList = s.prob(1, 40);
     if (longList) {
         // a list longer than any 8-bit bookkeeping holds (an uploaded trace): one array reader or a run of scalar readers, then one more
         Sig g; int n = (int) s.range(250, 400);
@@ -214,7 +214,7 @@ static PCase decode(Src &s) {
     for (size_t u = 0; u < c.units.size(); u++) c.text += (u ? ";" : "") + unitText(c.units[u], fmt(":CMD%d", c.units[u].entry));
     c.text += s.pick(std::vector<std::string>{"\n", "\r\n"});
     c.tightBuffer = s.coin();
-    if (!s.prob(4, 5)) c.fullQueue = (int) s.range(1, 3);     // the controller has not drained the queue: every error of the message overflows
+    if (s.prob(1, 5)) c.fullQueue = (int) s.range(1, 3);     // the controller has not drained the queue: every error of the message overflows
     return c;
 }
 
@@ -338,7 +338,7 @@ static std::string bodyRet(Src &s, Ev &ev) {
     if (tail) { call += s.pick(std::vector<std::string>{"OK", "ARG 1,", "NOSU", "ARG #15ab", " "}); shape += 't'; }
     bool overrun = s.prob(1, 8) && call.size() >= 2;      // a buffer is at least 2 bytes: shorter calls always fit
     k.bufLen = overrun ? std::max((size_t) 2, call.size() - (size_t) s.range(0, std::min(call.size() - 1, (size_t) 3))) : call.size() + 1 + s.range(0, 4);
-    int full = !s.prob(4, 5) ? (int) s.range(1, 3) : 0;   // queue already full when the call arrives
+    int full = s.prob(1, 5) ? (int) s.range(1, 3) : 0;   // queue already full when the call arrives
     if (full) k.queueLen = full;
     Inst I(k);
     if (full) { for (int i = 0; i < full; i++) SCPI_ErrorPush(&I.ctx, (int16_t) (-300 - i)); I.trace.clear(); I.errors.clear(); }
